@@ -22,7 +22,7 @@ REPLAYS = os.path.join(VERIF, "replays")
 EVID = os.path.join(VERIF, "evidence")
 KNOWN = os.path.join(VERIF, "known-findings.txt")
 
-JAVA_TRACE_OPTS = "-Xss1g -Dtlc2.tool.queue.IStateQueue=StateDeque"
+JAVA_TRACE_OPTS = "-Xmx4g -Xss1g -Dtlc2.tool.queue.IStateQueue=StateDeque"
 
 
 class ToolError(Exception):
@@ -123,7 +123,27 @@ def tlc_model(cfg, module, workers=8, timeout=600, extra=None, tag=None, simulat
 
 
 def tlc_trace(trace_path, W, prop, timeout=900, module="HbTrace.tla", cfg="HbTrace.cfg"):
-    """Validates one NDJSON trace. Returns the HBVRESULT dict (plus 'toolerror' on failure)."""
+    """Validates one NDJSON trace. Returns the HBVRESULT dict (plus 'toolerror' on failure).  A run that ends without any
+    verdict (the JVM could not start or was killed on an overloaded machine) is repeated once; a verdict is never retried."""
+    r = _tlc_trace_once(trace_path, W, prop, timeout, module, cfg)
+    o = r.get("out") or ""
+    transient = ("Error: " not in o) or ("out of memory" in o) or ("OutOfMemory" in o) or ("Cannot allocate memory" in o)
+    if r.get("toolerror"):
+        try:
+            with open(os.path.join(WORK, "toolerror_%s_%d.log" % (os.path.basename(trace_path), int(time.time()))), "w") as f:
+                f.write(r.get("full") or o)
+        except OSError:
+            pass
+    r.pop("full", None)
+    if r.get("toolerror") and r.get("rc") != 124 and transient:
+        time.sleep(2)
+        r = _tlc_trace_once(trace_path, W, prop, timeout, module, cfg)
+        r.pop("full", None)
+        r["retried"] = True
+    return r
+
+
+def _tlc_trace_once(trace_path, W, prop, timeout, module, cfg):
     ensure_dirs()
     tag = "tv_%d_%d" % (os.getpid(), int(time.time() * 1000) % 1000000)
     meta = os.path.join(WORK, tag)
@@ -148,7 +168,7 @@ def tlc_trace(trace_path, W, prop, timeout=900, module="HbTrace.tla", cfg="HbTra
     out = p.stdout
     m = re.search(r'"HBVRESULT (\{.*\})"', out)
     if not m:
-        return {"toolerror": True, "rc": p.returncode, "out": out[-3000:], "wall_s": round(time.time() - t0, 1)}
+        return {"toolerror": True, "rc": p.returncode, "out": out[-3000:], "full": out[-200000:], "wall_s": round(time.time() - t0, 1)}
     js = m.group(1).encode().decode("unicode_escape")
     res = json.loads(js)
     res["wall_s"] = round(time.time() - t0, 1)
